@@ -154,8 +154,10 @@ type W2 struct {
 	PubBytes []byte
 }
 
-func NewW2(keyIdx int) *W2 {
-	k := RSAKeys()[keyIdx]
+func NewW2(keyIdx int) *W2 { return NewW2Key(RSAKeys()[keyIdx]) }
+
+// NewW2Key builds the type-2 world of a given key.
+func NewW2Key(k *rsa.PrivateKey) *W2 {
 	is := type2.NewBasicPublicIssuer(k)
 	pb, err := util.MarshalTokenKeyPSSOID(is.TokenKey())
 	if err != nil {
